@@ -11,14 +11,17 @@ line:  <versions> <steps>
       m G|H (H = HEAD with Cache-Control: only-if-cached, answered from the cache or with 504)   inm,im: n | comma separated hex field values (one header line each)   ims: n | o<sec> (IMF-fixdate) | p<sec> (rfc850)
       | a<sec> (asctime) | x<hex> (raw, not a date)      k: version current at the origin during this step
       omode: r (RFC 9110 evaluation) | e (500) | c<n> (as r, but a 304 carries "Content-Length: n")    fr: f (max-age=100000) | s (max-age=0)
+in-process line (harness/c14.cc, the real StoreEntry::hasOneOfEtags / modifiedSince under ASan/UBSan):
+  c <etag> <lm> <ts> <method G|H|P> <ranged 0|1> <inm> <im> <ims>   ->   im=<0|1|-> inm=<0|1|-> mod=<0|1|->
 observation: one token per step  <status>/<body>/<xv>/<etag>/<lm>/<origin>
       body: - | v<k> | v<k>[n] (first n bytes) | ?<sha>; '!' appended when the message was incomplete
       xv: value of X-V (s<i> = set by the origin reply of step i) or n; etag: hex | n; lm: seconds before T0 | n
       origin: - (not contacted) | <status>:<inm hex list|n>:<im hex list|n>:<ims seconds|now|n|x>   (several contacts joined by '+')
 """
-import re, threading, time, calendar, hashlib
+import os, re, threading, time, calendar, hashlib, itertools
 from concurrent.futures import ThreadPoolExecutor
-from vf.util import hx, unhx
+from vf.util import hx, unhx, VERIF
+from vf.harness import ProcHarness
 from e2e import rig
 
 ID = "C14"
@@ -28,7 +31,8 @@ GEN = ["cond_consts"]
 RULE = ("scenario = origin versions (ETag strong/weak/malformed/absent, Last-Modified present/absent) x history of client requests "
         "(GET/HEAD x If-None-Match lists/'*'/weak/garbage x If-Match x If-Modified-Since dates around Last-Modified in three date formats) x "
         "per-step origin behaviour (RFC 9110 evaluation, version change, 500, 304 carrying Content-Length) x fresh/stale replies, run through the rebuilt "
-        "squid; non-trivial = a step carrying a conditional header was answered from a cached entry or after revalidation; distinct = distinct scenario lines")
+        "squid; plus in-process `c` lines (real StoreEntry::hasOneOfEtags / modifiedSince under ASan/UBSan: every list of length <= 3 (quick) / <= 5 (thorough) over "
+        "{\" a , SP \\ W / *}, random lists with bytes 1..255, time_t boundaries); non-trivial = a step carrying a conditional header was answered from a cached entry or after revalidation; distinct = distinct scenario lines")
 TRUSTED = ["modelled, not verified: Comm I/O, HTTP parsing and packing (tied separately), Time::ParseRfc1123 (C35), refreshCheck (freshness is driven by max-age=0 / max-age=100000 only), "
            "store internals (the entry is a record of header values and a body version)",
            "python reference evaluator of RFC 9110 section 13 (props/C14.py ref_eval) used by the scripted origin and by the oracle"]
@@ -41,7 +45,8 @@ MANIFEST = {
             "over histories (any number of steps, any origin version changes) every answer is justified against the response that would otherwise be sent provided the 304s that update the cache carry the stored validator, "
             "no Content-Length, and the origin answered (history_sound_partial), with machine-checked counterexamples for each excluded region (the three findings); HttpHeader::update replaces exactly the fields named by the 304 and "
             "leaves the stored body alone. The model is tied to the rebuilt binary by scenario correspondence (status, body version, X-V, ETag, Last-Modified and the conditional headers the origin received, per step) "
-            "and a direct oracle (python RFC 9110 evaluator + version bookkeeping from the observation alone). Runtime behaviour the model cannot exhibit: socket I/O, store swap, timing, concurrency between clients",
+            "and a direct oracle (python RFC 9110 evaluator + version bookkeeping from the observation alone); the comparison core (hasOneOfEtags over getList, modifiedSince) "
+            "is additionally run in-process from the staged store.cc/ETag.cc/StrList.cc under ASan/UBSan against the model and the RFC reference. Runtime behaviour the model cannot exhibit: socket I/O, store swap, timing, concurrency between clients",
     "note": "trusted: Lean kernel, python rig (origin/client stubs), loopback TCP; not modelled: Range/If-Range, Vary, collapsed revalidation, aborted revalidation, negative caching, date parsing",
     "technique": "Lean 4 proofs about the decision model and the history state machine + end-to-end scenario correspondence with the rebuilt squid",
 }
@@ -129,7 +134,7 @@ def fmt_line(vers, steps):
 
 
 def body_of(sid, k):
-    seed = ("v%d:%s:" % (k, sid)).encode()
+    seed = ("%d:v:%s:" % (k, sid)).encode()     # versions differ from the first byte on: a cut body still names its version
     fill = hashlib.sha256(seed).hexdigest().encode()
     return (seed + fill * 4)[:BODY_BASE + k]
 
@@ -203,6 +208,21 @@ def lenient_match(values, rep_etag):
     return len(r) >= 2 and any(r in v for v in values)
 
 
+def etag_shape(v):
+    """an ETag field value that can act as a validator: [W/] quoted string -> (weak, quoted) else None"""
+    if v is None:
+        return None
+    v = v.strip(b" \t\r\n\x0b\x0c")
+    weak = v.startswith(b"W/")
+    q = v[2:] if weak else v
+    return (weak, q) if len(q) >= 2 and q[:1] == b'"' and q[-1:] == b'"' else None
+
+
+def names_other(vers, k, held):
+    """a 304 from version k carries an entity-tag, and it is not the one stored with version `held`"""
+    return etag_shape(vers[k].etag) is not None and etag_shape(vers[k].etag) != etag_shape(vers[held].etag)
+
+
 def wellformed(values, rep_etag=b'""'):
     """inside the RFC 9110 grammar (and free of backslashes, which Squid's list splitter treats as escapes)"""
     if rep_etag is not None and ref_tag(rep_etag.strip(b" \t\r\n\x0b\x0c")) in (None, "*"):
@@ -219,7 +239,7 @@ XSP = b" \t\r\n\x0b\x0c"
 class Harness:
     def __init__(self, stage):
         self.origin = rig.Origin()
-        self.squid = rig.Squid(stage, conf="").start()
+        self.squid = rig.Squid(stage, conf="").start(wait=90)   # a loaded machine may need a while
         self.T0 = int(time.time())
         self.n = 0
         self.lock = threading.Lock()
@@ -336,15 +356,70 @@ class Harness:
 
     def run(self, lines):
         with ThreadPoolExecutor(max_workers=8) as ex:
-            return list(ex.map(self.one, lines))
+            outs = list(ex.map(self.one, lines))
+        # flake guard: an observation the oracle rejects (and no known finding explains) is taken again, twice; it counts only
+        # if it fails all three times
+        for idx, (l, o) in enumerate(zip(lines, outs)):
+            tries = 0
+            while tries < 2 and o != "bad-op" and oracle(l, o) and not classify(l, o, oracle(l, o)):
+                tries += 1
+                o2 = self.one(l)
+                if not oracle(l, o2):
+                    outs[idx] = o2
+                    break
+        return outs
 
     def close(self):
         self.squid.stop()
         self.origin.close()
 
 
+UNDER_TEST = ["src/store.cc", "src/ETag.cc", "src/StrList.cc"]
+
+
+def build_exe(stage):
+    built = getattr(stage, "built", None)
+    if built is None:
+        built = stage.built = {}
+    if "c14" not in built:
+        flags = ["-fno-sanitize=vptr"]
+        with ThreadPoolExecutor(max_workers=2) as ex:   # the harness translation unit and the code under test compile side by side
+            fh = ex.submit(stage.compile, os.path.join(VERIF, "harness", "c14.cc"), extra=flags + ["-fno-access-control"])
+            fo = ex.submit(stage.compile_many, UNDER_TEST, extra=flags)
+            objs = [fh.result()] + fo.result()
+        built["c14"] = stage.link_like("tests/testRock", objs, os.path.join(stage.work, "c14"), drop=("store.o", "ETag.o", "StrList.o"))
+    return built["c14"]
+
+
+class Both:
+    """`c ...` lines go to the in-process harness (real store.cc under ASan/UBSan), scenario lines to the running squid"""
+
+    def __init__(self, stage):
+        self.e2e = Harness(stage)
+        self.proc = ProcHarness([build_exe(stage)])
+
+    @property
+    def crashes(self):
+        return self.e2e.crashes + self.proc.crashes
+
+    def run(self, lines):
+        ci = [i for i, l in enumerate(lines) if l.startswith("c ")]
+        ei = [i for i, l in enumerate(lines) if not l.startswith("c ")]
+        out = [None] * len(lines)
+        if ci:
+            for i, o in zip(ci, self.proc.run([lines[i] for i in ci])):
+                out[i] = o
+        if ei:
+            for i, o in zip(ei, self.e2e.run([lines[i] for i in ei])):
+                out[i] = o
+        return out
+
+    def close(self):
+        self.e2e.close()
+
+
 def build(stage):
-    return Harness(stage)
+    return Both(stage)
 
 
 # ------------------------------------------------------------------------------------------- generators
@@ -501,8 +576,54 @@ def exhaustive_small(tier):
                             yield fmt_line([Ver(e, lm)], [Step("G", None, None, "n", 0, "r", fr), Step("G", inm, im, ims, 0, "r", "f"), Step("G", None, None, "n", 0, "r", "f")])
 
 
+def cline(etag, lm, ts, method, ranged, inm, im, ims):
+    f = lambda x: "n" if x is None else ",".join(hx(v) for v in x)
+    return "c %s %s %d %s %d %s %s %s" % ("n" if etag is None else hx(etag), "n" if lm is None else lm, ts, method, ranged, f(inm), f(im), "n" if ims is None else ims)
+
+
+SMALL = [0x22, 0x61, 0x2c, 0x20, 0x5c, 0x57, 0x2f, 0x2a]     # " a , SP \ W / *
+
+
+def c_cases(rng, tier):
+    """in-process: exhaustive small lists, random wide-alphabet lists, date boundaries"""
+    maxlen = 5 if tier == "thorough" else 3
+    for n in range(0, maxlen + 1):
+        for t in itertools.product(SMALL, repeat=n):
+            yield cline(b'"a"', 100, 200, "G", 0, [bytes(t)], [bytes(t)], None)
+    if tier == "thorough":
+        for n in range(0, 4):
+            for t in itertools.product(SMALL, repeat=n):
+                yield cline(b'W/"a"', 100, 200, "G", 0, [bytes(t)], [bytes(t)], None)
+                yield cline(bytes(t), 100, 200, "G", 0, [b'"a"', b"*"], [b'W/"a"'], None)
+                yield cline(None, 100, 200, "H", 0, [bytes(t)], [bytes(t)], None)
+    n = 6000 if tier == "thorough" else 600
+    wide = bytes(c for c in range(1, 256) if c not in (10, 13))
+    for i in range(n):
+        vers = gen_versions(rng)
+        k = rng.below(len(vers))
+        inm = clean(tag_variants(rng, vers, k)) if rng.chance(3, 4) else None
+        im = clean(tag_variants(rng, vers, k)) if rng.chance(1, 2) else None
+        if rng.chance(1, 4):     # wide alphabet damage
+            fld = inm if inm else im
+            if fld:
+                j = rng.below(len(fld))
+                p = rng.below(len(fld[j]) + 1)
+                fld[j] = fld[j][:p] + rng.bytes(rng.range(1, 3), wide) + fld[j][p:]
+        etag = vers[k].etag
+        if etag is not None:
+            etag = clean([etag])[0]
+            if rng.chance(1, 10):
+                etag = rng.choice([b" ", b"\t"]) + etag + rng.choice([b" ", b"\x0b", b""])
+        lm = None if rng.chance(1, 4) else rng.choice([0, 1, 100, 10 ** 9, 2 ** 31 - 1, 2 ** 31, 2 ** 33])
+        ts = rng.choice([-1, 0, 50, 200, 10 ** 9])
+        base = lm if lm is not None else ts
+        ims = None if rng.chance(1, 3) else base + rng.choice([0, 1, -1, 2, -2, 1000, -1000])
+        yield cline(etag, lm, ts, rng.choice("GGGHP"), 1 if rng.chance(1, 5) else 0, inm, im, ims)
+
+
 def cases(rng, tier):
-    n = 2500 if tier == "thorough" else 260
+    yield from c_cases(rng.fork("inproc"), tier)
+    n = 2500 if tier == "thorough" else 400
     if tier == "thorough":
         yield from exhaustive_small(tier)
     else:
@@ -573,14 +694,14 @@ def judge(line, impl):
     held = None          # version of the last 200 the origin gave to a GET through this squid
     last_xv = None       # step of the last origin reply that (re)wrote the cached headers
     upd_lm = None        # Last-Modified carried by the last 304 that updated the cached headers
+    upd_etag = None      # ETag field carried by such a 304 when it names no other representation
     for i, (st, o) in enumerate(zip(steps, obs)):
         status, body, xv, etag, lm, oc = o
         facts = {"step": i, "omode": st.omode}
         contacts = [] if oc == "-" else oc.split("+")
-        if len(contacts) > 1:
-            bad.append((i, "origin contacted more than once for one request", facts))
-            continue
-        ostatus = int(contacts[0].split(":")[0]) if contacts else None
+        # several contacts for one request are not forbidden by the property (a revalidation that cannot be used may be
+        # followed by a plain fetch): the last one is the origin's answer to this request
+        ostatus = int(contacts[-1].split(":")[0]) if contacts else None
         facts["ostatus"] = ostatus
         if status == "noresp":
             bad.append((i, "no response", facts))
@@ -588,9 +709,9 @@ def judge(line, impl):
         status = int(status)
         # the response that would otherwise be sent
         # the response that would otherwise be sent: what the origin just gave (200/412); after a 304 the cached one, unless the
-        # 304 names another representation (its entity-tag differs from the stored one: then the origin's current version is
-        # what a correct answer must be consistent with); else what the cache holds
-        if ostatus in (200, 412) or (ostatus == 304 and (held is None or vers[st.k].etag != vers[held].etag)):
+        # 304 names another representation (it carries an entity-tag and that differs from the stored one: then the origin's
+        # current version is what a correct answer must be consistent with); else what the cache holds
+        if ostatus in (200, 412) or (ostatus == 304 and (held is None or names_other(vers, st.k, held))):
             W = st.k
         else:
             W = held
@@ -608,6 +729,11 @@ def judge(line, impl):
         v = vers[W]
         # modification time as a 'seconds before T0' quantity: entries without Last-Modified were received at about T0 (Date = now)
         mod = -v.lm if v.lm is not None else 0
+        if ostatus != 200 and W == held:
+            # Last-Modified is a header like any other: a 304 (now or earlier) may have rewritten it in the cached response
+            eff_lm = vers[st.k].lm if (ostatus == 304 and vers[st.k].lm is not None) else upd_lm
+            if eff_lm is not None:
+                mod = -eff_lm
         ims_t = ims_time(st.ims)
         ref = ref_eval(st.inm, st.im, ims_t, v.etag, mod)
         facts["ref"] = ref
@@ -637,6 +763,9 @@ def judge(line, impl):
                 want_body = "-" if st.m == "H" else "v%d" % W
                 want_etag = "n" if v.etag is None else hx(v.etag.strip(XSP))
                 want_lm = "n" if v.lm is None else str(v.lm)
+                cur_et = vers[st.k].etag if (ostatus == 304 and held is not None and vers[st.k].etag is not None and not names_other(vers, st.k, held)) else upd_etag
+                if ostatus != 200 and cur_et is not None:
+                    want_etag = hx(cur_et.strip(XSP))   # an ETag field that is no entity-tag is a header like any other
                 cur_upd = vers[st.k].lm if (ostatus == 304 and held is not None and vers[st.k].lm is not None) else upd_lm
                 if ostatus != 200 and cur_upd is not None:
                     want_lm = str(cur_upd)     # Last-Modified is a header like any other: the last 304 may have rewritten it
@@ -649,21 +778,66 @@ def judge(line, impl):
                     want_xv = "s%d" % i if ostatus in (200, 304) else ("s%d" % last_xv if last_xv is not None else None)
                     if want_xv and xv != want_xv:
                         bad.append((i, "200 with X-V %s, expected the updated value %s" % (xv, want_xv), facts))
-        elif status == 500 and ostatus == 500 and held is None:
-            pass
+        elif status == 500 and ostatus == 500:
+            pass    # the origin's error passed on (answering from a stale copy instead is optional)
         else:
             bad.append((i, "unexpected status %d" % status, facts))
         # bookkeeping from the observation alone
         if ostatus == 200:
-            held, last_xv, upd_lm = st.k, i, None
+            held, last_xv, upd_lm, upd_etag = st.k, i, None, None
         elif ostatus == 304 and held is not None:
             last_xv = i
             if vers[st.k].lm is not None:
                 upd_lm = vers[st.k].lm
+            if vers[st.k].etag is not None and not names_other(vers, st.k, held):
+                upd_etag = vers[st.k].etag
     return bad
 
 
+def parse_c(line):
+    w = line.split(" ")
+    if len(w) != 9:
+        raise ValueError(line)
+    f = lambda t: None if t == "n" else [unhx(x) for x in t.split(",")]
+    return dict(etag=None if w[1] == "n" else unhx(w[1]), lm=None if w[2] == "n" else int(w[2]), ts=int(w[3]), method=w[4], ranged=w[5] == "1",
+                inm=f(w[6]), im=f(w[7]), ims=None if w[8] == "n" else int(w[8]))
+
+
+def oracle_c(line, impl):
+    """the in-process results against the RFC reference (well-formed input) / the literal-presence rule (any input), and
+    modifiedSince against plain arithmetic"""
+    if impl.startswith("abort"):
+        return "no usable observation: " + impl
+    if impl in ("bad-op", "reject:header"):
+        return None
+    c = parse_c(line)
+    m = re.fullmatch(r"im=([01-]) inm=([01-]) mod=([01-])", impl)
+    if not m:
+        return "unparsable result " + impl
+    im, inm, mod = m.groups()
+    if (im == "-") != (c["im"] is None) or (inm == "-") != (c["inm"] is None) or (mod == "-") != (c["ims"] is None):
+        return "presence of a conditional header misjudged"
+    weak_ok = (not c["ranged"]) and c["method"] in "GH"
+    for name, got, vals, weak in (("If-Match", im, c["im"], False), ("If-None-Match", inm, c["inm"], weak_ok)):
+        if vals is None:
+            continue
+        if wellformed(vals, c["etag"]) or (c["etag"] is None and wellformed(vals)):
+            want = ref_match(vals, c["etag"], weak)
+            if (got == "1") != want:
+                return "%s %s: comparison says %s, RFC 9110 says %s" % (name, "weak" if weak else "strong", got, int(want))
+        elif got == "1" and not (ref_match(vals, c["etag"], True) or lenient_match(vals, c["etag"])):
+            return "%s matched although the entity-tag is nowhere in the field" % name
+    if c["ims"] is not None:
+        modt = c["lm"] if c["lm"] is not None else c["ts"]
+        want = modt < 0 or modt > c["ims"]
+        if (mod == "1") != want:
+            return "modifiedSince(%d) = %s with modification time %d" % (c["ims"], mod, modt)
+    return None
+
+
 def oracle(line, impl):
+    if line.startswith("c "):
+        return oracle_c(line, impl)
     if impl.startswith("abort") or impl == "bad-op":
         return "no usable observation: " + impl if impl.startswith("abort") else None
     bad = judge(line, impl)
@@ -686,16 +860,20 @@ def _kinds(line, impl):
     res = []
     for st, o in zip(steps, obs):
         cond = ("inm" if st.inm is not None else "") + ("+im" if st.im is not None else "") + ("+ims" if st.ims != "n" else "")
-        path = "hit" if o[5] == "-" else "origin" + o[5].split(":")[0]
+        path = "hit" if o[5] == "-" else "origin" + o[5].split("+")[-1].split(":")[0]
         res.append((cond.strip("+") or "plain", path, o[0]))
     return res
 
 
 def nontrivial(line, impl, model):
+    if line.startswith("c "):
+        return "1" in impl or "0" in impl
     return any(c != "plain" and (p == "hit" or p in ("origin304", "origin500")) for c, p, s in _kinds(line, impl))
 
 
 def tag(line, impl, model):
+    if line.startswith("c "):
+        return "in-process " + impl
     ks = [k for k in _kinds(line, impl) if k[0] != "plain"]
     if not ks:
         return "no conditional step"
@@ -710,11 +888,11 @@ def _events(vers, steps, obs, upto):
     ev = []
     held = None
     for j in range(upto + 1):
-        oc = obs[j][5]
+        oc = obs[j][5].split("+")[-1]
         if oc.startswith("200:") and steps[j].m == "G":
             held, ev = steps[j].k, []      # a fresh copy replaced the entry
         elif oc.startswith("304:") and held is not None:
-            if steps[j].k != held and vers[steps[j].k].etag != vers[held].etag:
+            if steps[j].k != held and names_other(vers, steps[j].k, held):
                 ev.append(("foreign", j))
             if steps[j].omode[0] == "c" and int(steps[j].omode[1:]) != BODY_BASE + held:
                 ev.append(("cl", j))
@@ -723,6 +901,8 @@ def _events(vers, steps, obs, upto):
 
 def classify(line, impl, why):
     """narrow signatures of the confirmed defects (see known_findings.d/C14.json)"""
+    if line.startswith("c "):
+        return None
     try:
         vers, steps = parse_line(line)
         bad = judge(line, impl)
@@ -749,6 +929,10 @@ def classify(line, impl, why):
 
 
 def shrink(line):
+    if line.startswith("c "):
+        from vf.run import default_shrink
+        yield from default_shrink(line)
+        return
     try:
         vers, steps = parse_line(line)
     except Exception:
